@@ -6,8 +6,8 @@ package funnel
 // harness in package dlqparity).
 
 func VerifNewWindow(size, threshold int) *dlqWindow { return newDLQWindow(size, threshold) }
-func VerifWindowAck(w *dlqWindow, n int)             { w.Ack(n) }
-func VerifWindowNack(w *dlqWindow, n int) int        { return w.Nack(n) }
+func VerifWindowAck(w *dlqWindow, n int)            { w.Ack(n) }
+func VerifWindowNack(w *dlqWindow, n int) int       { return w.Nack(n) }
 func VerifWindowCounts(w *dlqWindow) (nacks, acks int) {
 	return w.nackCount, w.ackCount
 }
